@@ -326,7 +326,8 @@ def extract_checks(repo, key):
             re.search(r"return\s+1\s*;\s*$", fb.strip()) is not None
     # the order checks must precede the chain call
     if pts:
-        i_chk = body.index("EchallxEaux.E1,", body.index("test_point_order_twof(&T1.P1")) if "test_point_order_twof(&T1.P1" in body else -1
+        i_chk = min(m.start() for m in re.finditer(r"test_point_order_twof\s*\(\s*&\s*T(?:1m2|1|2)\s*\.", body)
+                    if "EchallxEaux" in body[m.start():m.start() + 120])
         i_call = body.index("theta_chain_comput_strategy_faster_no_eval")
         if not (0 <= i_chk < i_call):
             raise TranslateError("kernel order checks of %s do not precede the chain computation" % V["path"])
@@ -344,6 +345,23 @@ def extract_nist_api(repo):
             raise TranslateError("src/sqisign.c: %s not found" % fn)
         m = re.fullmatch(r"\s*int\s+ret\s*=\s*(-?\d+)\s*;\s*return\s+ret\s*;\s*", body)
         out.append((fn, int(m.group(1)) if m else None))
+    return out
+
+
+def extract_hint_thresholds(repo):
+    """basis.c: `if (hint < N) x = TABLE[hint];` in the two *_from_hint point routines -> exclusive bound of the table branch"""
+    src = strip_comments(open(os.path.join(repo, "src/ec/ref/ecx/basis.c")).read())
+    out = {}
+    for key, fn, table in (("NotAbove", "ec_curve_to_point_2f_not_above_montgomery_from_hint", "NQR_TABLE"),
+                           ("Above", "ec_curve_to_point_2f_above_montgomery_from_hint", "Z_NQR_TABLE")):
+        body = find_function(src, fn)
+        if body is None:
+            raise TranslateError("basis.c: %s not found" % fn)
+        m = re.search(r"if\s*\(\s*(hint\s*>=\s*0\s*&&\s*)?hint\s*(<=|<)\s*(\d+)\s*\)\s*\{\s*\w+\s*=\s*%s\s*\[\s*hint\s*\]\s*;" % table, body)
+        if not m:
+            raise TranslateError("basis.c: table branch of %s has an unsupported shape" % fn)
+        out[key] = int(m.group(3)) + (1 if m.group(2) == "<=" else 0)
+        out[key + "Lo"] = m.group(1) is not None
     return out
 
 
@@ -397,6 +415,17 @@ def generate(repo, outdir):
     if any(r == 0 for _, r in api):
         msgs.append("src/sqisign.c: stub entry points return 0 (= success): %s" % [f for f, r in api if r == 0])
     out += ["end SqiGen.VerifGuard", ""]
+    thr = extract_hint_thresholds(repo)
+    consts = ["/- GENERATED by tools/translate/verif_guard.py from src/ec/ref/ecx/basis.c. Do not edit.",
+              "   hints below these bounds are used as indices into NQR_TABLE / Z_NQR_TABLE by the *_from_hint routines. -/",
+              "namespace SqiGen.VerifConsts",
+              "def hintThrNotAbove : Nat := %d" % thr["NotAbove"], "def hintThrAbove : Nat := %d" % thr["Above"],
+              "/-- the table branch is also guarded by `hint >= 0` -/",
+              "def hintLoNotAbove : Bool := %s" % ("true" if thr["NotAboveLo"] else "false"),
+              "def hintLoAbove : Bool := %s" % ("true" if thr["AboveLo"] else "false"),
+              "end SqiGen.VerifConsts", ""]
+    if write_if_changed(os.path.join(outdir, "VerifConsts.lean"), "\n".join(consts)):
+        msgs.append("VerifConsts.lean regenerated")
     if write_if_changed(os.path.join(outdir, "VerifGuard.lean"), "\n".join(out)):
         msgs.append("VerifGuard.lean regenerated")
     return msgs
